@@ -87,8 +87,10 @@ End Eval.
 
 (** * Local consistency: every registered node holds its function applied to the current
     values of its declared inputs, and every bind's right-hand side is the instantiation of
-    the case its input selects.  A boolean, so that it can be evaluated on replayed runs. *)
-Fixpoint matches (fuel : nat) (s : state) (b : nat) (x : Z) (e : texp) (r : option nid) : bool :=
+    the case its input selects (built in scope [sc]: the bind's own scope for a plain bind, the
+    scope the bind lives in for a memoized one).  A boolean, so that it can be evaluated on
+    replayed runs. *)
+Fixpoint matches (fuel : nat) (s : state) (sc : option nat) (x : Z) (e : texp) (r : option nid) : bool :=
   match fuel with
   | O => false
   | S fuel =>
@@ -96,31 +98,31 @@ Fixpoint matches (fuel : nat) (s : state) (b : nat) (x : Z) (e : texp) (r : opti
     | TNil, None => true
     | TOuter m, Some n => bool_decide (n = m)
     | TRet k, Some n => let y := nd s n in
-                        bool_decide (nkind y = KReturn) && (value y =? k) && bool_decide (scope y = Some b)
+                        bool_decide (nkind y = KReturn) && (value y =? k) && bool_decide (scope y = sc)
     | TX, Some n => let y := nd s n in
-                    bool_decide (nkind y = KReturn) && (value y =? x) && bool_decide (scope y = Some b)
+                    bool_decide (nkind y = KReturn) && (value y =? x) && bool_decide (scope y = sc)
     | TMap f e, Some n =>
       let y := nd s n in
-      bool_decide (nkind y = KMap f) && bool_decide (scope y = Some b) &&
-      match decl y with [a] => matches fuel s b x e (Some a) | _ => false end
+      bool_decide (nkind y = KMap f) && bool_decide (scope y = sc) &&
+      match decl y with [a] => matches fuel s sc x e (Some a) | _ => false end
     | TMap2 f e1 e2, Some n =>
       let y := nd s n in
-      bool_decide (nkind y = KMap2 f) && bool_decide (scope y = Some b) &&
+      bool_decide (nkind y = KMap2 f) && bool_decide (scope y = sc) &&
       match decl y with
-      | [a1; a2] => matches fuel s b x e1 (Some a1) && matches fuel s b x e2 (Some a2)
+      | [a1; a2] => matches fuel s sc x e1 (Some a1) && matches fuel s sc x e2 (Some a2)
       | _ => false
       end
     | TCut c e, Some n =>
       let y := nd s n in
-      bool_decide (nkind y = KCutoff c) && bool_decide (scope y = Some b) &&
-      match decl y with [a] => matches fuel s b x e (Some a) | _ => false end
+      bool_decide (nkind y = KCutoff c) && bool_decide (scope y = sc) &&
+      match decl y with [a] => matches fuel s sc x e (Some a) | _ => false end
     | TBind cases e, Some n =>
       let y := nd s n in
       match nkind y with
       | KBindMain b' =>
         let br := bd s b' in
-        bool_decide (scope y = Some b) && texps_eqb (b_cases br) cases
-        && bool_decide (b_main br = n) && matches fuel s b x e (Some (b_lhs br))
+        bool_decide (scope y = sc) && texps_eqb (b_cases br) cases
+        && bool_decide (b_main br = n) && matches fuel s sc x e (Some (b_lhs br))
       | _ => false
       end
     | _, _ => false
@@ -146,7 +148,7 @@ Definition node_consistent (s : state) (n : nid) : bool :=
     let br := bd s b in
     let v := valueOf s (b_lhs br) in
     (value x =? match b_rhs br with Some r => valueOf s r | None => 0 end)
-    && matches (next s + 64) s b v (select (b_cases br) v) (b_rhs br)
+    && matches (next s + 64) s (if b_memo br then scope (nd s b) else Some b) v (select (b_cases br) v) (b_rhs br)
   end.
 
 Definition registered (s : state) : list nid :=
@@ -162,7 +164,16 @@ Definition observers_agree (s : state) : bool :=
 (** replay a history on the model alone; after every successful pass both checks must hold:
     reports (operation index, 1 = not locally consistent, 2 = an observer disagrees with eval) *)
 Definition is_pass (o : op) : bool :=
-  match o with Stabilize _ | StabilizeCancelled => true | _ => false end.
+  match o with Stabilize _ | StabilizeCancelled | ParStabilize _ => true | _ => false end.
+
+(* passes whose plan performs mid-pass writes end with the deferred values already applied:
+   consistency is then a statement about the pass's own inputs (property C12), not the new ones *)
+Definition has_writes (o : op) : bool :=
+  match o with
+  | Stabilize p | ParStabilize p =>
+    existsb (fun '(_, _, a) => match a with ASet _ _ | AUpdate _ _ => true | AFail _ => false end) p
+  | _ => false
+  end.
 
 Fixpoint c01_trace (s : state) (os : list op) (i : nat) : option (nat * nat) :=
   match os with
@@ -171,7 +182,7 @@ Fixpoint c01_trace (s : state) (os : list op) (i : nat) : option (nat * nat) :=
     if negb (op_ok s o) then Some (i, 99%nat) else
     match step (s <| log := [] |>) o with
     | Ok (s', None) =>
-      if is_pass o then
+      if is_pass o && negb (has_writes o) then
         if negb (consistent s') then Some (i, 1%nat)
         else if negb (observers_agree s') then Some (i, 2%nat)
         else c01_trace s' os (S i)
